@@ -96,7 +96,7 @@ theorem pargs_step (G : GCtx) (n : Nat) (hPE : PE G n) (hPArgs : PArgs G n) : PA
           obtain ⟨hfr1, mem1, hrun1, hml1⟩ := h1
           have hrel1 : StRel G.mod A.T A.N A.σ G.lim A.mp scopes vm st1.scopes mem1 := by
             rw [hfr1]; exact hrel.memLe hml1.cells
-          have hsp1 := hsp.world st1 hfr1
+          have hsp1 := hsp.world st1 hfr1 hrun1.inv
           rw [cgE_of_pure _ _ _ _ _ hpa] at hCA
           obtain ⟨v, hv, hrunA⟩ := atom_runs G A hA a.2 st1 (ip + nI CS.1) (vs.map (⟨·, none⟩) ++ stk) mem1 CS.2
             scopes vm hat hresa' hTa' (by rw [hCA]; exact hplA) hrel1
